@@ -93,7 +93,7 @@ seed_t = [seeded(4, cfg="full-rel", max_seconds=BIG), seeded(3), seeded(3, cfg="
 
 # ---- C01 no premature reclamation ---------------------------------------------------------------------------
 plan("C01", Q, core_q + seed_q + [fin_q(FIN_RESURRECT), R("full-rel", "fin", 3, 3, depth=9, fin_menu="0,1,8,12"), R("full-dbg", "weakfin", 2, 3, depth=10)] + auto_q + cleaner_q)
-plan("C01", T, core_t + seed_t + [fin_t(FIN_RESURRECT), fin_t(FIN_ALL, depth=11), fin_t(FIN_RESURRECT, depth=11, n=3)] + weak_t + auto_t + cleaner_t)
+plan("C01", T, core_t + seed_t + [fin_t(FIN_RESURRECT), fin_t(FIN_ALL, depth=11), fin_t(FIN_RESURRECT, depth=11, n=3), R("full-rel", "fin", 3, 3, depth=12, fin_menu="0,1,8,12", max_seconds=MID)] + weak_t + auto_t + cleaner_t)
 
 # ---- C02 completeness -----------------------------------------------------------------------------------------
 plan("C02", Q, core_q + seed_q + [fin_q(FIN_RELEASE), R("nofin-rel", "dtor", 2, 3, depth=13), R("full-dbg", "weak", 2, 3, depth=12), R("full-dbg", "weakfin", 2, 3, depth=10)])
@@ -133,6 +133,7 @@ plan("C06", Q, [
 plan("C06", T, [
     fin_t(FIN_RESURRECT, depth=19), R("full-dbg", "fin", 2, 2, fin_menu=FIN_RESURRECT), fin_t(FIN_ALL, depth=11),
     R("full-rel", "fin", 3, 3, depth=13, fin_menu="0,1,3,7,8", max_seconds=MID),
+    R("full-rel", "fin", 3, 3, depth=12, fin_menu="0,1,8,12", max_seconds=MID),
     R("full-rel", "weakfin", 2, 3, depth=14, fin_menu="0,6,13", drop_menu="0", max_seconds=MID),
     R("full-rel", "weakfin", 2, 3, depth=12, fin_menu="0,1,6", drop_menu="0", max_seconds=MID),
     R("full-rel", "weakfin", 3, 3, depth=11, fin_menu="0,6", drop_menu="0", max_seconds=MID),
@@ -213,6 +214,10 @@ plan("C12", T, [
     R("full-rel", "cleaner", 2, 3, depth=11, action_menu=ACT_PHASE, max_seconds=MID),
     R("full-rel", "autofin", 3, 3, depth=11, max_seconds=MID), R("nofin-rel", "dtor", 2, 3, depth=16, max_seconds=MID),
     R("full-dbg", "fin", 2, 2, fin_menu=FIN_PHASE, max_seconds=MID), R("full-dbg", "dtor", 2, 2, drop_menu=DROP_PHASE, max_seconds=MID),
+    seeded(2, cfg="full-rel", seed_family="g3b", fin_menu="0,10,11,14", drop_menu="0,3,4,5", max_seconds=MID),
+    R("full-rel", "fin", 3, 3, depth=10, fin_menu="0,10,11", max_seconds=MID),
+    R("full-rel", "dtor", 3, 3, depth=11, fin_menu="0,4", drop_menu="0,3,4", max_seconds=MID),
+    R("full-rel", "cleaner", 3, 3, depth=10, action_menu="0,1", fin_menu="0,11", max_seconds=MID),
 ])
 
 # ---- C13 try_unwrap (+ layout grid engine) ---------------------------------------------------------------------------------
@@ -226,7 +231,8 @@ plan("C14", T, cyclic_t + [R("full-rel", "fin", 3, 3, depth=12, fin_menu="0,1,17
 # ---- C16 saturation -----------------------------------------------------------------------------------------------------------
 plan("C16", Q, [R("full-dbg", "sat", 1, 2, depth=6, sat_k=1), R("full-rel", "sat", 2, 2, depth=6, sat_k=1), R("full-rel", "sat", 1, 2, depth=8, sat_k=0, w=1, fin_menu="0,1"),
                  R("full-rel", "sat", 2, 2, depth=7, sat_k=0, w=1)])       # 16382 references all owned by a traced bag of another object
-plan("C16", T, [R("full-rel", "sat", 1, 2, depth=11, sat_k=1, w=1, fin_menu="0,1", max_seconds=MID), R("full-dbg", "sat", 1, 2, depth=8, sat_k=2), R("full-rel", "sat", 2, 2, depth=8, sat_k=2, max_seconds=MID), R("nofin-rel", "sat", 1, 2, depth=7, sat_k=1)])
+plan("C16", T, [R("full-rel", "sat", 1, 2, depth=11, sat_k=1, w=1, fin_menu="0,1", max_seconds=MID), R("full-dbg", "sat", 1, 2, depth=8, sat_k=2), R("full-rel", "sat", 2, 2, depth=8, sat_k=2, max_seconds=MID), R("nofin-rel", "sat", 1, 2, depth=7, sat_k=1),
+                 R("full-rel", "sat", 2, 2, depth=9, sat_k=1, w=1, max_seconds=MID), R("full-dbg", "sat", 2, 3, depth=7, sat_k=0, w=1, max_seconds=MID)])
 
 # ---- C20a address stability / ptr_eq (forwarding impls: separate enumeration engine) --------------------------------------------
 plan("C20", Q, [R("full-dbg", "core", 2, 3), R("full-rel", "core", 3, 3, depth=11)])
